@@ -704,6 +704,12 @@ void DOMLSSerializerImpl::processNode(const DOMNode* const nodeToWrite, int leve
             ensureValidString(nodeToWrite, nodeName);
             ensureValidString(nodeToWrite, nodeValue);
 
+            // [16] PI ::= '<?' PITarget (S (Char* - (Char* '?>' Char*)))? '?>'
+            if (XMLString::patternMatch(nodeValue, gEndPI) != -1)
+            {
+                reportError(nodeToWrite, DOMError::DOM_SEVERITY_FATAL_ERROR, XMLDOMMsg::SYNTAX_ERR);
+            }
+
             if(level == 1 && getFeature(FORMAT_PRETTY_PRINT_1ST_LEVEL_ID))
                 printNewLine();
 
